@@ -57,9 +57,12 @@ def theta_layout(st):
 def hll_states():
     for mode in (0, 1, 2, 3, 4):        # List, Set, Array4, Array6, Array8  (enum order of hll::mode::Mode)
         for tgt in (0, 1, 2):
-            for n in (0, 3):
+            # 7 coupons: the fullest list (the 8th promotes it); 24 coupons in 32 slots: the fullest set (exactly 3/4, one more grows it)
+            for n in (0, 3, 7, 24):
                 for ooo in (False, True):
                     for aux in (0, 2):
+                        if (n == 7 and mode != 0) or (n == 24 and mode != 1):
+                            continue
                         if mode >= 2 and tgt != mode - 2:
                             continue
                         if mode < 2 and (ooo or aux):
